@@ -60,24 +60,45 @@ Theorem C15_all_closed_all_released :
 Proof. exact all_closed_all_released. Qed.
 Print Assumptions C15_all_closed_all_released.
 
+(* the current code (repairs F32, F33, F34a in place): nothing leaks, a heap iterator
+   keeps its stack alive *)
+Theorem C15_all_closed_all_released_current_code :
+  forall ops st,
+  forallb current_code ops = true -> run ops = Some st -> all_closed st ->
+  (forall o, cnt_of (hp st) o = 0) /\ open_fds st = [] /\ mappings st = 0.
+Proof. exact all_closed_all_released_current_code. Qed.
+Print Assumptions C15_all_closed_all_released_current_code.
+
+Theorem C15_iterator_stack_alive :
+  forall ops st, run ops = Some st ->
+  forall s ll c, In (HIter (Some s) ll c) (handles st) ->
+    cnt_of (hp st) s > 0 /\ forall o, reach (hp st) s o -> cnt_of (hp st) o > 0.
+Proof. exact iterator_stack_alive. Qed.
+Print Assumptions C15_iterator_stack_alive.
+
 (* what the model refuted about the pinned code - confirmed on the real code, then
    repaired (F32 iterator borrowing its snapshot's stack, F33 leak on an error return,
-   F34 witness a) or listed (F31, witness b) *)
+   F34 witness a: refutations of the ..._pre_fix operations) or listed (F31, witness b:
+   a refutation of the current code) *)
 Theorem C15_refuted_pre_fix_iterator_borrows_stack :
   exists ops st, forallb no_ll_error ops = true /\ run ops = Some st /\ ~ borrow_safe st.
-Proof. exact iterator_borrow_safe_refuted. Qed.
+Proof. exact iterator_borrow_safe_refuted_pre_fix. Qed.
 Print Assumptions C15_refuted_pre_fix_iterator_borrows_stack.
 
+Theorem C15_refuted_pre_fix_only_current_file_remains :
+  exists st, forallb no_ll_error w_files_a_pre_fix = true /\ run w_files_a_pre_fix = Some st /\
+             all_closed st /\ stale_file st.
+Proof. exact only_current_file_refuted_pre_fix. Qed.
+Print Assumptions C15_refuted_pre_fix_only_current_file_remains.
+
 Theorem C15_refuted_only_current_file_remains :
-  (exists st, forallb no_ll_error w_files_a = true /\ run w_files_a = Some st /\
-              all_closed st /\ stale_file st) /\
-  (exists st, forallb no_ll_error w_files_b = true /\ run w_files_b = Some st /\
-              all_closed st /\ stale_file st).
+  exists st, forallb current_code w_files_b = true /\ run w_files_b = Some st /\
+             all_closed st /\ stale_file st.
 Proof. exact only_current_file_refuted. Qed.
 Print Assumptions C15_refuted_only_current_file_remains.
 
 Theorem C15_refuted_pre_fix_leak_on_error_return :
-  exists st o, run w_leak = Some st /\ all_closed st /\
+  exists st o, run w_leak_pre_fix = Some st /\ all_closed st /\
                cnt_of (hp st) o > 0 /\ open_fds st <> [] /\ mappings st > 0.
-Proof. exact all_released_with_error_return_refuted. Qed.
+Proof. exact all_released_with_error_return_refuted_pre_fix. Qed.
 Print Assumptions C15_refuted_pre_fix_leak_on_error_return.
